@@ -94,18 +94,21 @@ def check(ctx, run):
     bad = None
     try:
         # entries: (pointer, saved value); the same pointer may be redirected more than once in a test
-        for entries in ([], [("Q0", 100)], [("Q0", 100), ("Q1", 101)], [("Q0", 100), ("Q1", 101), ("Q0", 102)], [("Q2", 5), ("Q2", 6), ("Q2", 7), ("Q3", 8)]):
+        # (also the table filled to its last and to its full extent: every one of the MAX_SET slots is a usable entry)
+        full = [("P%d" % k_, 200 + k_) for k_ in range(ext)]
+        for entries in ([], [("Q0", 100)], [("Q0", 100), ("Q1", 101)], [("Q0", 100), ("Q1", 101), ("Q0", 102)], [("Q2", 5), ("Q2", 6), ("Q2", 7), ("Q3", 8)], full[:ext - 1], full):
             env = {"pointerTableIndex": len(entries)}
             for i_, (q, v) in enumerate(entries):
                 env["setlist[%d].orig" % i_] = ("ptr", q, 0)
                 env["setlist[%d].orig_value" % i_] = v
                 env["%s[0]" % q] = 9999
             # entries above the index hold stale data that must not be written back
-            env["setlist[%d].orig" % len(entries)] = ("ptr", "STALE", 0)
-            env["setlist[%d].orig_value" % len(entries)] = 1
+            if len(entries) < ext:
+                env["setlist[%d].orig" % len(entries)] = ("ptr", "STALE", 0)
+                env["setlist[%d].orig_value" % len(entries)] = 1
             env["STALE[0]"] = 9999
             ev = Evaluator(prog, po, env=env)
-            ev.run_blocks(po.entry, max_steps=2000)
+            ev.run_blocks(po.entry, max_steps=4000)
             want = {}
             for q, v in reversed(entries):
                 want[q] = v          # the oldest entry of a pointer is written last
@@ -118,10 +121,10 @@ def check(ctx, run):
             elif ev.env.get("pointerTableIndex") != 0:
                 why = "the index is %s after the post action" % ev.env.get("pointerTableIndex")
             if why and bad is None:
-                bad = "%d entries %s: %s" % (len(entries), entries, why)
+                bad = "%d entries %s: %s" % (len(entries), entries[:4], why if len(entries) < 8 else "pointers %s are not restored" % sorted(q for q in want if got.get(q) != want[q])[:4])
     except Unknown as u:
         run.broke("C17.R2: the restoring post action cannot be folded: %s" % u)
-    run.ob("R2", "restore folded over tables of 0..4 entries (incl. a pointer redirected several times): every pointer gets back the value it had before the test, entries above the index are ignored", po.site, bad is None, witness=bad or "5 tables",
+    run.ob("R2", "restore folded over tables of 0..4 entries (incl. a pointer redirected several times) and over the table filled to MAX_SET-1 and MAX_SET entries: every pointer gets back the value it had before the test, entries above the index are ignored", po.site, bad is None, witness=bad or "7 tables",
            what="" if bad is None else "a pointer redirected twice in one test would not get its first value back, or entries are skipped: " + bad)
     okr = True
     for p in enumerate_paths(po):
